@@ -7,7 +7,10 @@ import re
 
 import verif
 
-RULE = ("sequences of 1-4 raw frames (half of them through a ring of 1-4 REUSED receive buffers, as the zero-copy AF_PACKET "
+RULE = ("plus an end-to-end stage (real afpacket source, kernel filter, real receiver, scan method; veth pair in a private "
+        "namespace) fed histories 'long reply, then frames of other hosts that end after the IPv4/ARP header or inside the "
+        "transport header, then a reply'; "
+        "sequences of 1-4 raw frames (half of them through a ring of 1-4 REUSED receive buffers, as the zero-copy AF_PACKET "
         "ring hands out memory; the rest in fresh buffers) fed to the real ProcessPacketData of tcp (flags wiring and SYN wiring), icmp/udp and "
         "arp, Ethernet and raw-IP link modes; frame families: valid reply, truncated, one length/size/type field set to a "
         "boundary value, IP-in-IP, Ethernet-in-Ethernet, fragments, other protocols/ethertypes/802.3 lengths, malformed "
@@ -251,6 +254,105 @@ def witnesses():
             {"kind": "arp", "vpn": False, "frames": [hx(a816)]}]
 
 
+# ------------------------------------------------------------------ end-to-end stage: the real AF_PACKET source and receiver
+E2E_WIRING = [
+    {"cmd": "tcp --flags", "method": "tcp", "pf": "1" * 512, "allflags": True, "filter": 0, "chunked": True, "vpn_source": True, "vpn_method": True},
+    {"cmd": "icmp", "method": "icmp", "pf": "", "allflags": False, "filter": 2, "chunked": False, "vpn_source": True, "vpn_method": True},
+    {"cmd": "udp", "method": "udp", "pf": "", "allflags": False, "filter": 2, "chunked": True, "vpn_source": True, "vpn_method": True},
+    {"cmd": "arp", "method": "arp", "pf": "", "allflags": False, "filter": 3, "chunked": False, "vpn_source": False, "vpn_method": False},
+]
+E2E_KIND = {"tcp --flags": "tcp", "icmp": "icmp", "udp": "udp", "arp": "arp"}
+
+
+def e2e_cases():
+    """Histories for the real packet source: a long well-formed reply, then frames of OTHER hosts that end right after
+    the IPv4 / ARP fixed header or inside the transport header (their total length claims more), then a reply again."""
+    eth = lambda t: [2, 0, 0, 0, 0, 1, 2, 0, 0, 0, 0, 2, t >> 8, t & 255]
+    def ip(src, proto, total, ihl=5, opts=()):
+        return [0x40 | ihl, 0, total >> 8, total & 255, 0, 1, 64, 0, 64, proto, 0, 0] + src + [192, 168, 0, 9] + list(opts)
+    tcp = lambda sp, fl: [sp >> 8, sp & 255, 156, 64, 0, 0, 0, 1, 0, 0, 0, 2, 80, fl, 250, 240, 0, 0, 0, 0]
+    icmp = lambda t, c: [t, c, 0, 0, 0, 1, 0, 1]
+    pay = list(range(1, 31))
+    hx = lambda b: bytes(b).hex()
+    out = []
+    for ihl, opts in ((5, ()), (6, (1, 1, 1, 0))):
+        h = ihl * 4
+        t_long = eth(0x0800) + ip([10, 1, 1, 1], 6, h + 20 + 30, ihl, opts) + tcp(443, 0x12) + pay
+        t_hdr = eth(0x0800) + ip([10, 2, 2, 2], 6, h + 20, ihl, opts)                   # ends after the IPv4 header
+        t_mid = eth(0x0800) + ip([10, 3, 3, 3], 6, h + 20, ihl, opts) + tcp(80, 0x14)[:10]  # ends inside the TCP header
+        t_ok = eth(0x0800) + ip([10, 4, 4, 4], 6, h + 20, ihl, opts) + tcp(22, 0x14)
+        out.append({"w": 0, "subnet": "", "ports": [], "frames": [hx(t_long), hx(t_hdr), hx(t_mid), hx(t_ok), hx(t_hdr[:14 + h - 4] + [9, 9, 9, 9])]})
+        i_long = eth(0x0800) + ip([10, 1, 1, 1], 1, h + 8 + 30, ihl, opts) + icmp(3, 3) + pay
+        i_hdr = eth(0x0800) + ip([10, 2, 2, 2], 1, h + 8, ihl, opts)
+        i_mid = eth(0x0800) + ip([10, 3, 3, 3], 1, h + 8, ihl, opts) + icmp(11, 0)[:4]
+        i_ok = eth(0x0800) + ip([10, 4, 4, 4], 1, h + 8, ihl, opts) + icmp(0, 0)
+        for w in (1, 2):
+            out.append({"w": w, "subnet": "", "ports": [], "frames": [hx(i_long), hx(i_hdr), hx(i_mid), hx(i_ok)]})
+    arp = lambda mac, spa: [0, 1, 8, 0, 6, 4, 0, 2] + mac + spa + [2, 0, 0, 0, 0, 1, 192, 168, 0, 9]
+    a_long = eth(0x0806) + arp([0, 17, 34, 51, 68, 85], [10, 1, 1, 1]) + [0] * 18
+    a_hdr = eth(0x0806) + arp([0, 17, 34, 51, 68, 86], [10, 2, 2, 2])[:8]
+    a_mid = eth(0x0806) + arp([0, 17, 34, 51, 68, 87], [10, 3, 3, 3])[:16]
+    a_ok = eth(0x0806) + arp([2, 17, 34, 51, 68, 88], [10, 4, 4, 4])
+    out.append({"w": 3, "subnet": "", "ports": [], "frames": [hx(a_long), hx(a_hdr), hx(a_mid), hx(a_ok)]})
+    return out
+
+
+def run_e2e_stage(ctx, cases, seen, tag="e2e"):
+    from checks import c03 as c03mod
+    with open(os.path.join(ctx.work, "wiring.json"), "w") as f:
+        json.dump(E2E_WIRING, f)
+    path = os.path.join(ctx.work, tag + ".in.json")
+    with open(path, "w") as f:
+        json.dump(cases, f)
+    rows = c03mod.run_e2e(ctx, ["-replay", path], tag)
+    for c in rows:
+        kind = E2E_KIND.get(c["cmd"], "tcp")
+        if c.get("err"):
+            ctx.broken.append(("correspondence: e2e run of %s failed: %s" % (c["cmd"], c["err"]), ""))
+            continue
+        frames = [x["frame"] for x in c["frames"]]
+        bad = []
+        for n, fo in enumerate(c["frames"]):
+            if not fo["sent"]:
+                continue
+            ctx.count("e2e/%s/%s" % (kind, "record" if fo["record"] else "none"),
+                      hashlib.md5(("e2e" + kind + fo["frame"] + str(n)).encode()).digest(), nontrivial=True)
+            if fo["n"] > 1:
+                bad.append((n, "multi", "%d records for one frame" % fo["n"]))
+            if fo["record"]:
+                o = {"k": 1, "n": 1, "rec": {"udp": "icmp"}.get(kind, kind), "ip": [int(x) for x in fo["ip"].split(".")] if fo.get("ip") else [],
+                     "iptext": fo.get("ip", ""), "port": fo["port"], "flags": fo["flags"], "ttl": fo["ttl"], "type": fo["type"],
+                     "code": fo["code"], "mac": [int(x, 16) for x in fo["mac"].split(":")] if fo.get("mac") else [],
+                     "mactext": fo.get("mac", ""), "vendor_ok": True, "scan": SCAN.get(kind)}
+                why = judge(kind, False, fo["frame"], o)
+                if why:
+                    bad.append((n, why[0].split(":")[0], why[1]))
+        for u in c.get("unmatched_recs") or []:
+            # a record whose fields fit no injected frame: attribute it to the frame from that source address
+            n = [k for k, fh in enumerate(frames) if ".".join(str(b) for b in bytes.fromhex(fh)[28 if kind == "arp" else 26:][:4]) == u.get("ip")]
+            n = n[0] if n else len(frames) - 1
+            exp = expected_record(kind, False, bytes.fromhex(frames[n]))
+            got = {k: u[k] for k in ("ip", "port", "flags", "ttl", "type", "code", "mac") if u.get(k) not in (None, "", 0)}
+            if exp is None:
+                bad.append((n, "phantom", "the record %s is emitted for the frame from %s, which has no well-formed header chain of "
+                                          "the scan (it ends before its transport header)" % (got, u.get("ip"))))
+            else:
+                bad.append((n, "extra", "an additional record %s appears that no injected frame accounts for (a frame without a "
+                                        "complete header chain was decoded with bytes left over from an earlier frame)" % got))
+        for n, cls, what in bad[:1]:
+            key = "%s:e2e:%s" % (cls, kind)
+            if key in seen:
+                seen[key] += 1
+                continue
+            seen[key] = 1
+            rp = ctx.write_replay(key.replace(":", "-"), {
+                "property": "C06", "what": "[real AF_PACKET source + receiver + %s scan method on a veth pair] %s" % (kind, what),
+                "input": {"e2e": True, "w": c["w"], "kind": kind, "frames": frames, "failing_frame": n},
+                "observed": c["frames"], "unmatched": c.get("unmatched"), "replay_cmd": "bin/check C06 --replay <this file>"})
+            ctx.findings.append({"key": key, "what": what, "replay": rp})
+    return rows
+
+
 def run(ctx):
     quick = ctx.tier == "quick"
     ctx.trusted += [
@@ -303,6 +405,8 @@ def run(ctx):
         v = first_violation(r)
         if v:
             report(ctx, r, v[0], v[1], seen)
+    # the real packet source and receiver in front of the processors (needs the C03 e2e driver and a network namespace)
+    run_e2e_stage(ctx, e2e_cases(), seen)
     for k, n in seen.items():
         if n > 1:
             ctx.info.append("%d more sequences show the violation class %s" % (n - 1, k))
@@ -342,6 +446,15 @@ def replay(ctx, path):
         print(json.dumps(r, indent=1))
         return 1
     i = r["input"]
+    if i.get("e2e"):
+        seen = {}
+        run_e2e_stage(ctx, [{"w": i["w"], "subnet": "", "ports": [], "frames": i["frames"]}], seen, "e2e-replay")
+        for fd in ctx.findings:
+            print("e2e replay: " + fd["what"])
+        for b in ctx.broken + [(x, "") for x in ctx.skipped]:
+            print("e2e replay: " + b[0])
+        print("replay: " + ("the property FAILS on this input" if ctx.findings else "the property holds on this input"))
+        return 1 if ctx.findings or ctx.broken else 0
     if not ctx.harness_build(i.get("driver", "c06")):
         return 1
     rows = run_sequences(ctx, [{"kind": i["kind"], "vpn": i["vpn"], "ring": i.get("ring", 0), "frames": i["frames"]}], "replay",
